@@ -58,9 +58,17 @@ where
 }
 
 /// Max number of pixels per Pixel Row
+#[cfg(not(almindor_mipidsi_verif_smallcap))]
 const MAX_ROW_SIZE: usize = 50;
 /// Max number of pixels per Pixel Block
+#[cfg(not(almindor_mipidsi_verif_smallcap))]
 const MAX_BLOCK_SIZE: usize = 100;
+/// Verification build only: small capacities so that bounded model checking can reach the
+/// row-full / block-full transitions with every element symbolic.
+#[cfg(almindor_mipidsi_verif_smallcap)]
+const MAX_ROW_SIZE: usize = 4;
+#[cfg(almindor_mipidsi_verif_smallcap)]
+const MAX_BLOCK_SIZE: usize = 8;
 
 /// Consecutive color words for a Pixel Row
 type RowColors<C> = heapless::Vec<C, MAX_ROW_SIZE>;
